@@ -234,8 +234,8 @@ def seq_concat(interp, a, b):
   ctx.assume(res.length == a.length + b.length)
   ctx.assume(z3.ForAll([i], z3.Implies(z3.And(i >= 0, i < a.length),
                                        interp._bt(interp.eq(res.at(i), a.at(i))))))
-  ctx.assume(z3.ForAll([i], z3.Implies(z3.And(i >= 0, i < b.length),
-                                       interp._bt(interp.eq(res.at(a.length + i), b.at(i))))))
+  ctx.assume(z3.ForAll([i], z3.Implies(z3.And(i >= a.length, i < res.length),
+                                       interp._bt(interp.eq(res.at(i), b.at(i - a.length))))))
   return res
 
 
